@@ -74,6 +74,11 @@ func c11a(c *Ctx, a *absVariant) {
 					if fn == "parseActionExpr" && (rec.Kind != "addErrAt" || rec.Args[1] != absint.Entry) {
 						bad = append(bad, a.V.Where(rec.Pos)+": an action's error must be recorded at the start position of its match (entry savepoint), got "+rec.String())
 					}
+					// a predicate or state block consumes nothing: its error belongs to the current position, which addErr
+					// uses (an explicit position must be that of the entry savepoint, not one remembered from elsewhere)
+					if fn != "parseActionExpr" && rec.Kind == "addErrAt" && rec.Args[1] != absint.Entry {
+						bad = append(bad, a.V.Where(rec.Pos)+": the error of a predicate or state block must be recorded at the current position, got "+rec.String())
+					}
 				} else {
 					v, known := factAt(e.State.Facts)
 					if !known {
@@ -603,6 +608,9 @@ func prefixSemantics(c *Ctx, v *variants.Variant, fd *ast.FuncDecl, posP string)
 			switch {
 			case (e.Kind == "call" || e.Kind == "ccall") && strings.HasPrefix(e.Text, buf+".WriteString("):
 				pieces = append(pieces, strings.TrimSuffix(strings.TrimPrefix(e.Text, buf+".WriteString("), ")"))
+			case (e.Kind == "call" || e.Kind == "ccall") && (strings.HasPrefix(e.Text, "fmt.Fprintf(&"+buf+",") || strings.HasPrefix(e.Text, "fmt.Fprintf("+buf+",")):
+				// formatted straight into the buffer: the text fmt.Sprintf would have produced
+				pieces = append(pieces, "fmt.Sprintf("+e.Text[strings.Index(e.Text, ",")+1:])
 			case e.Kind == "+" && (e.Text == buf+".Len()>0" || e.Text == buf+".Len()==0" || e.Text == buf+".Len()<=0"):
 				if known, ne := nonEmpty(); known && ne != (e.Text == buf+".Len()>0") {
 					feasible = false
@@ -715,7 +723,6 @@ func flattenTextTokens(toks []string) string {
 	}
 	return strings.Join(out, " ")
 }
-
 
 // errListKeepsAll: errList.add keeps every error it is given: on its only path the list becomes append(list, err).
 // (Which errors are reported may not depend on how many were recorded before: duplicates are removed later, by dedupe,
